@@ -6,6 +6,7 @@ import (
 	"context"
 	"errors"
 	"fmt"
+	"sync"
 	"testing"
 	"testing/synctest"
 	"time"
@@ -334,27 +335,35 @@ func TestVerifC25Handler(t *testing.T) {
 // FIRST partition of a request are what turns the rating unhealthy while the request is still being processed.
 type c25FlakyView struct {
 	*s3View
+	mu            sync.Mutex // uploadFlush calls UploadSegment and UploadIndex from two goroutines
 	failUploads   int
 	failDownloads int
 }
 
+func (f *c25FlakyView) take(n *int) bool {
+	f.mu.Lock()
+	defer f.mu.Unlock()
+	if *n > 0 {
+		*n--
+		return true
+	}
+	return false
+}
+
 func (f *c25FlakyView) UploadSegment(ctx context.Context, key string, body []byte) error {
-	if f.failUploads > 0 {
-		f.failUploads--
+	if f.take(&f.failUploads) {
 		return errInjected
 	}
 	return f.s3View.UploadSegment(ctx, key, body)
 }
 func (f *c25FlakyView) UploadIndex(ctx context.Context, key string, body []byte) error {
-	if f.failUploads > 0 {
-		f.failUploads--
+	if f.take(&f.failUploads) {
 		return errInjected
 	}
 	return f.s3View.UploadIndex(ctx, key, body)
 }
 func (f *c25FlakyView) DownloadSegment(ctx context.Context, key string, rng *storage.ByteRange) ([]byte, error) {
-	if f.failDownloads > 0 {
-		f.failDownloads--
+	if f.take(&f.failDownloads) {
 		return nil, errInjected
 	}
 	return f.s3View.DownloadSegment(ctx, key, rng)
